@@ -5,7 +5,9 @@
     `Ebv.GenFixed` (driver Drivers/C02.lean); the two sides of a comparison after `comparison` scaled them;
 (b) property oracle: the real emitted code runs in the independent interpreter (interp.py); the destination is compared
     with an exact evaluation over fractions.Fraction (dropped by floor or truncation), non-negative and negative operand
-    streams separately; a comparison's scaled sides must order like the exact values;
+    streams separately; a comparison's scaled sides must order like the exact values; executed conditions run the branch
+    the exact comparison selects (signed / unsigned precondition by dsl.psigned on the program text; the class
+    divmod-negative by `neg_class` on the program text -- neither from the implementation's objects);
 (c) the binary64 model (`Ebv.F64`) against CPython's float: exhaustive sweep of n/10^5 and random fractions -- a TEST of
     the float model, not a proof; Python-side set/get of `x` map variables through a bytearray-backed map."""
 import math
@@ -108,6 +110,35 @@ def node_values(E, v, regs, varat, acc):
     return r
 
 
+def neg_class(stmt, regs, vars_, fm):
+    """divmod-negative (class NEG), decided on the PROGRAM TEXT with the exact Fraction values -- not on the implementation's
+    object tree: one of the divisions the generator has to emit has a negative operand.  Those are the explicit / // %, the
+    rescaling of a fixed * fixed product (the product is divided by 10^5) and the rescaling of a fixed value that is stored
+    into an integer destination"""
+    def neg(j):
+        try:
+            return min(D.eval_q(j, regs, vars_, fm)) < 0
+        except (dsl.Outside, KeyError, ZeroDivisionError):
+            return False
+
+    def go(j):
+        if j[0] in ("c", "d", "x", "v") or j[0] in D.VIEWS:
+            return False
+        k, a, b = j
+        if go(a) or go(b):
+            return True
+        if k == "//" and a[0] == "d" and not D.is_fixed(b, fm):
+            # decimal // integer expression: `__rfloordiv__` takes int(decimal) as dividend (see CORRESPONDED_NOT_PROVED)
+            return int(Fraction(a[1], FB)) < 0 or neg(b)
+        if k in ("/", "//", "%"):
+            return neg(a) or neg(b)
+        if k == "*" and D.is_fixed(a, fm) and D.is_fixed(b, fm):
+            return neg(j)
+        return False
+    d, e = stmt[1], stmt[2]
+    return go(e) or (not D.dest_fixed(d, fm) and D.is_fixed(e, fm) and neg(e))
+
+
 def make_inputs(rng, prog, mode):
     """mode 'nonneg': every register/variable holds a non-negative value; 'neg': some are negative"""
     def val(fixed, bits):
@@ -161,7 +192,7 @@ def check_program(ctx, prog, built, insns, inputs_list):
                 vals = []
                 node_values(E, sobj, regview, varat, vals)
                 inside = all(-(1 << (W - 1)) <= v < (1 << (W - 1)) for v in vals)
-                neg = bool(c01.input_classes(E, sobj, regview, varat))
+                neg = neg_class(st, regview, varbytes, fm)
             except (dsl.Outside, KeyError, ZeroDivisionError):
                 want, inside, neg = None, False, False
             if isinstance(res, str):
@@ -226,7 +257,8 @@ def cmp_probe(ctx, rng):
     """`a < b` with mixed typing: the scaled sides (real objects) against the model and against the exact order"""
     prog = D.base_prog(rng, "l")
     kinds = rng.choice([("x", "c"), ("c", "x"), ("vx", "r"), ("r", "vx"), ("x", "d"), ("d", "x"), ("x", "vi"), ("sr", "d"),
-                        ("vx", "c"), ("x", "vx"), ("r", "c"), ("vi", "x")])
+                        ("vx", "c"), ("x", "vx"), ("r", "c"), ("vi", "x"),
+                        ("w", "d"), ("d", "sw"), ("vi", "d"), ("d", "vi")])          # a 32-bit integer against a decimal constant
     a, b = (D.pick_leaf(rng, prog, k, True) for k in kinds)
     if D.is_const(a) and D.is_const(b):
         return None
@@ -360,6 +392,14 @@ def gen_cond(rng):
         if not D.is_const(side):
             side = rng.choice([["*", side, ["c", 2]], ["+", side, it()], ["/", side, ["c", 4]], ["-", side, ["d", 50000]]])
             a, b = (side, b) if k == 0 else (a, side)
+    elif rng.random() < 0.25:
+        # register +- int against a fixed-point value: the signedness of the Sum object decides the jump (a signed register with
+        # a non-negative number, an unsigned one with a negative number, numbers that merge to another sign)
+        regs = [r for r in prog["owned"] if r < 10 and r != 7] or [1]
+        sm = [rng.choice("+-"), [rng.choice(["sr", "sr", "r"]), rng.choice(regs)], ["c", rng.choice([0, 1, 1, 7, -1, -7, 21474])]]
+        if rng.random() < 0.3:
+            sm = [rng.choice("+-"), sm, ["c", rng.choice([1, -1, 7, -7])]]
+        a, b = rng.choice([(fx(), sm), (sm, fx())])
     return dict(prog, cond=[rng.choice(list(CMPS)), a, b], els=rng.random() < 0.6)
 
 
@@ -439,12 +479,9 @@ def check_cond(ctx, case, inputs_list):
         lo = -(1 << 63) if inp.get("mode") == "signed" else 0
         # precondition as for C03: a signed comparison needs both sides in the signed 64-bit range, an unsigned one (neither real
         # operand object is signed) needs both sides non-negative
-        # (signedness as the property defines it, from the operands' declared kinds -- not from the implementation's own typing:
+        # (signedness as the property defines it, dsl.psigned on the program text -- not the implementation's own typing:
         # x registers/variables, sr/sw views, lower-case formats and negative constants are signed)
-        def signed_leaf(l):
-            return (l[0] in ("x", "sr", "sw") or (l[0] == "v" and (fm[l[1]] == "x" or fm[l[1]].islower()))
-                    or (l[0] in ("c", "d") and l[1] < 0))
-        unsigned_cmp = not any(signed_leaf(l) for side in case["cond"][1:] for l in D.leaves(side))
+        unsigned_cmp = not (dsl.psigned(case["cond"][1], fm) or dsl.psigned(case["cond"][2], fm))
         if unsigned_cmp and (min(qa) < 0 or min(qb) < 0):
             out.append("cond:outside")
             continue
@@ -563,7 +600,11 @@ ASSUMPTIONS = ["decimal constants are decimal literals n/10^5 with |n| < 2^51 (a
                "judged at full strength since Sum.__sub__ was repaired",
                "comparisons: the scaling rule of `comparison` is corresponded with the model (cmpScale); the emitted compare/branch code of "
                "fixed-point conditions is covered by EXECUTION against the Fraction reference only (operands 64 bits wide, non-negative, "
-               "every node < 2^63); its opcode model is C03's (Ebv.Model.GenCond), not used here"]
+               "every node < 2^63); its opcode model is C03's (Ebv.Model.GenCond), not used here",
+               "signedness of a condition's operands is the property's (dsl.psigned: x registers/variables, sr/sw views, lower-case "
+               "formats, negative constants signed; a result signed as soon as one operand is); the class divmod-negative is decided on "
+               "the program text with exact values (neg_class: an explicit / // %, the rescaling of a fixed*fixed product or of a "
+               "fixed value stored into an integer destination has a negative operand)"]
 RULE = ("programs = JSON surface DSL with fixed typing (dsl_fixed.py): leaves x registers, x stack/array-map variables, decimal "
         "constants (boundary set: decimals whose double product lies just below the decimal -- 0.29 0.57 0.58 1.13 1.15 ... --, "
         "units, negatives, >= 2^31 scaled, 2^51-1), ints, r/sr/w/sw registers, variables of the 8 integer formats; operators "
@@ -572,7 +613,8 @@ RULE = ("programs = JSON surface DSL with fixed typing (dsl_fixed.py): leaves x 
         "meeting fixed point, Binary + Sum, int/fixed, float // expr); a non-negative and a negative stream of constants and "
         "inputs; mixed comparisons (scaled sides), and executed conditions `with <cmp>: marker = 1 / with Else: marker = 2` over x "
         "variables (stack and array-map), x registers, decimal and integer constants, r/sr registers, q variables on either side, "
-        "optionally one arithmetic step, all six operators, operand values next to each other and on both sides of 2^31 and 2^32 "
+        "optionally one arithmetic step or a register +- int operand (Sum objects: signed register with a non-negative number, "
+        "merged numbers), all six operators, operand values next to each other and on both sides of 2^31 and 2^32 "
         "raw; float model: n/10^5 for |n| <= 2*10^6 (exhaustive in the thorough tier, |n| <= 6*10^4 plus "
         "stride 37 in the quick tier), random windows below 2^51, random fractions; non-trivial = accepted with > 1 instruction")
 PROVED = [
